@@ -4,6 +4,11 @@
     post-filter count = pairs blocking emits for the rule; pre-filter count = number of pairs
     with equal NULL-free key tuples; per-rule row counts = pairs whose first true rule it is,
     running sums, exact cartesian counts; n_largest_blocks are the largest genuine blocks.
+ T  translators/c14_sql.py: the `__splink__blocked_id_pairs` SQL (and the exploded id-table SQL)
+    actually executed by the cumulative function and by predict() for the same rule kinds are
+    captured, turned into C01 skeleton terms, and Coq decides over all valuations that both emit
+    the same match keys and meet C01's specification; the count/pre-filter SQL text is compared
+    with the audited form.
  X  real count_comparisons_from_blocking_rule, cumulative_comparisons_to_be_scored_from_
     blocking_rules_data and n_largest_blocks on DuckDB and SQLite vs the model evaluated in
     Coq (rule outcomes and key values evaluated by an independent DuckDB connection), and the
@@ -48,6 +53,57 @@ def shrink(case, kind):
     return best
 
 
+T_HEADER = """From Coq Require Import List Bool Arith.
+From Splinkv Require Import Base.TV Model.Blocking.
+Import ListNotations.
+(* in a two-dataset link the left table holds the smaller source_dataset: l.sds < r.sds, hence
+   sds differ and composite_id(l) < composite_id(r) *)
+Definition consistent (lt : link_type) (v : valuation) : bool :=
+  match lt with TwoDatasetLinkOnly => v_idlt v && v_sdsne v && v_sdslt v | _ => true end.
+Definition same_blocking (c : link_type * nat * list bexp * skeleton * skeleton) : bool :=
+  match c with (lt, natoms, rules, skc, skp) =>
+    forallb (fun v => negb (consistent lt v) ||
+                      (list_nat_eqb (emit skc v) (emit skp v) && list_nat_eqb (emit skc v) (expected lt rules v)))
+            (all_vals lt natoms [])
+  end.
+"""
+
+
+def translator_stage(ctx: Ctx):
+    """-> list of broken obligations (strings)"""
+    from translators import c14_sql as T
+    broken = []
+    terms, metas = [], []
+    for kinds, shapes, lt, ntab in T.configs(ctx.tier, ctx.rng):
+        try:
+            terms.append(T.obligation(kinds, shapes, lt, ntab))
+            metas.append((kinds, shapes, lt, ntab))
+            ctx.obligations += 1
+            ctx.discharged += 1
+        except Exception as e:  # fail closed
+            ctx.obligation(f"translate blocking SQL of cumulative/predict {kinds} {shapes} {lt}/{ntab}", False, repr(e)[:300])
+            broken.append(f"untranslatable {kinds} {shapes} {lt}/{ntab}: {repr(e)[:120]}")
+    bad, errs = ctx.eval_cases("C14_same", T_HEADER, terms, "same_blocking", shard=20)
+    for e in errs:
+        ctx.obligation("blocking-SQL obligations evaluate", False, e)
+        broken.append("blocking-SQL obligations did not evaluate")
+    ctx.obligations += len(terms)
+    ctx.discharged += (len(terms) - len(bad)) if not errs else 0
+    for i in bad:
+        broken.append(f"cumulative pipeline and predict() emit different blocking SQL (or not C01's spec) for {metas[i]}")
+        ctx.log("blocking SQL differs:", metas[i])
+    ctx.cov["same_blocking_sql_obligations"] = len(terms)
+    try:
+        now = T.count_sql_shapes()
+        for name, want in T.EXPECTED_COUNT.items():
+            if not ctx.obligation(f"SQL shape of {name} is the modelled one", now.get(name) == want, str(now.get(name))[:300]):
+                broken.append("count SQL shape changed: " + name)
+    except Exception as e:
+        ctx.obligation("capture the count SQL", False, repr(e)[:300])
+        broken.append("count SQL could not be captured: " + repr(e)[:120])
+    return broken
+
+
 def run(ctx: Ctx):
     ctx.cov["rule"] = ("X: seeded tables (1-3, NULL keys), all link types; a single rule = 0-2 equi-join atoms (incl. substr keys, "
                        "asymmetric l.a = r.b for dedupe) + optional filter atom, or an OR rule without extractable keys, salted on DuckDB; "
@@ -55,6 +111,9 @@ def run(ctx: Ctx):
                        "explicitly (never hit) in half of the cases; n_largest in {1,2,3,5}; 3 Coq-evaluated comparisons per case; non-trivial = the rule has a "
                        "NULL outcome, pre-filter > post-filter > 0 and >= 2 rules own pairs.")
     ctx.trusted += [
+        "translators/c14_sql.py + c01_skeleton.py helpers (sqlglot parse; placeholder rule shapes atom / top-level OR; "
+        "rule kinds plain and exploding, n <= 3; in a two-dataset link l.sds < r.sds is assumed to imply "
+        "composite_id(l) < composite_id(r)); count SQL compared as normalised text",
         "harness X: rule outcomes per pair and equi-join key values per record are evaluated by an independent DuckDB "
         "connection (key expressions re-parsed with sqlglot from equi_join_conditions_identified)",
         "modelled not verified: SQL join/GROUP BY/USING semantics of the engines; tie order of equal-sized blocks in "
@@ -66,6 +125,8 @@ def run(ctx: Ctx):
     ok = ctx.proof_stage("Properties/C14.v")
     if not ok:
         ctx.violation("theorems of Properties/C14.v no longer check", {"broken": "Properties/C14.v"}, found_input=False)
+
+    broken_T = translator_stage(ctx) if not ctx.replay else []
 
     if ctx.replay:
         rp = json.loads(open(ctx.replay).read())
@@ -126,6 +187,8 @@ def run(ctx: Ctx):
         ctx.hist("backend", case["backend"]); ctx.hist("link_type", case["link_type"]); ctx.hist("tables", len(case["tables"]))
         ctx.hist("n_rules", len(case["rules"])); ctx.hist("rules_owning_pairs", owners_n)
         ctx.hist("has_equi_keys", bool(cnt["equi_join_conditions_identified"])); ctx.hist("has_filter", bool(cnt["filter_conditions_identified"]))
+        ctx.hist("exploding_rules_in_list", sum(1 for r in case["rules"] if X.is_exploding(r)))
+        ctx.hist("single_rule_salted", isinstance(case["rule"], dict)); ctx.hist("max_rows_limit", case.get("max_rows_limit"))
         ctx.hist("post_filter", min(post // 5 * 5, 50)); ctx.hist("listed_blocks", len(res["top"]))
         for t, lab in zip(ts, ls):
             terms.append(t); owners.append(ci); labels.append(lab)
@@ -157,6 +220,9 @@ def run(ctx: Ctx):
                       + str([labels[i] for i in bad_idx[:6]]),
                       {"broken": "correspondence C14_x", "outputs": [labels[i] for i in bad_idx[:10]],
                        "cases": [cases[i] for i in which], "errors": errs[:2]}, found_input=False)
+    if broken_T and not found_any:
+        ctx.violation("translator obligation on the blocking-analysis SQL failed: " + "; ".join(broken_T)[:400],
+                      {"broken": "T: " + "; ".join(broken_T)}, found_input=False)
     if split_fail and not found_any:
         ctx.violation("the equi-join/filter decomposition of a rule is not equivalent to the rule: " + split_fail[0][1][:300],
                       {"broken": "obligation: equi AND filter == rule", "case": cases[split_fail[0][0]], "detail": split_fail[0][1]},
